@@ -173,6 +173,31 @@ func r10_1(c *Ctx) {
 		}
 	})
 	c.check(yOK, fnLabel(ip.doYield)+":yields-id-cell", P.pos(ip.doYield.Pos()), "every yielded event carries the interpreter's last-event-ID cell (seeded by the caller)", "the yielded event's LastEventID is not the interpreter's persistent last-event-ID cell")
+	// the connection works on its own deep copy of the request (http.Request.Clone): a shallow copy shares the
+	// header map, so the Last-Event-ID one connection sets or deletes shows up in the caller's request and in
+	// every other connection made from it
+	{
+		n := 0
+		for _, a := range P.fieldAccesses("Connection", "request") {
+			if a.Kind != "write" {
+				continue
+			}
+			n++
+			st := a.Use.(*ssa.Store)
+			good := false
+			for _, sv := range append(sources(st.Val), st.Val) {
+				if call, ok := isStaticCall(sv, "(*net/http.Request).Clone"); ok {
+					if _, isP := stripPhi(call.Call.Args[0]).(*ssa.Parameter); isP || len(sources(call.Call.Args[0])) > 0 {
+						good = true
+					}
+				}
+			}
+			c.check(good, fnLabel(a.Fn)+":request-deep-copy", P.ipos(st), "the connection keeps r.Clone(...) of the caller's request", "the connection keeps the caller's request or a shallow copy of it (WithContext): the header map is shared, so reconnect headers leak between connections and into the caller's request")
+		}
+		if n == 0 {
+			c.anchor("a store to Connection.request")
+		}
+	}
 }
 
 func canonicalIsLastEventID(v ssa.Value) (string, bool) {
@@ -633,6 +658,13 @@ const (
 // locksetOf computes, for every instruction of fn, the must-hold state of
 // Connection.mu just before it.
 func locksetOf(fn *ssa.Function) map[ssa.Instruction]int {
+	ls, _ := locksetOfEx(fn)
+	return ls
+}
+
+// locksetOfEx also reports the lock calls made while the lock is already held on that path.
+func locksetOfEx(fn *ssa.Function) (map[ssa.Instruction]int, []ssa.Instruction) {
+	var reacquired []ssa.Instruction
 	isMu := func(v ssa.Value) bool { _, ok := isFieldSel(v, "Connection", "mu"); return ok }
 	in := map[*ssa.BasicBlock]int{}
 	seen := map[*ssa.BasicBlock]bool{}
@@ -656,8 +688,14 @@ func locksetOf(fn *ssa.Function) map[ssa.Instruction]int {
 				if len(x.Call.Args) > 0 && isMu(x.Call.Args[0]) {
 					switch calleeName(x) {
 					case "(*sync.RWMutex).Lock":
+						if st != lkNone {
+							reacquired = append(reacquired, instr)
+						}
 						st = lkW
 					case "(*sync.RWMutex).RLock":
+						if st != lkNone {
+							reacquired = append(reacquired, instr)
+						}
 						st = lkR
 					case "(*sync.RWMutex).Unlock", "(*sync.RWMutex).RUnlock":
 						st = lkNone
@@ -682,7 +720,7 @@ func locksetOf(fn *ssa.Function) map[ssa.Instruction]int {
 			work = append(work, s)
 		}
 	}
-	return out
+	return out, reacquired
 }
 
 var guardedFields = []string{"callbacks", "callbacksAll", "callbackID"}
@@ -812,6 +850,76 @@ func r13_1(c *Ctx) {
 				}
 			}
 		})
+	}
+	// the lock is never taken again by a goroutine that holds it (sync.RWMutex is not reentrant)
+	{
+		n := 0
+		seenRe := map[ssa.Instruction]bool{}
+		var reacquired []ssa.Instruction
+		for _, fn := range P.Funcs {
+			if !inSSEPackage(fn) {
+				continue
+			}
+			_, re := locksetOfEx(fn)
+			for _, in := range re {
+				if !seenRe[in] {
+					seenRe[in] = true
+					reacquired = append(reacquired, in)
+				}
+			}
+		}
+		for _, in := range reacquired {
+			n++
+			c.bad(fnLabel(in.Parent())+":lock-reacquired", P.ipos(in), "Connection.mu is locked while it is already held on this path (directly or in an inlined helper): with a writer waiting in between, the second RLock blocks for ever - dispatch, subscribe and unsubscribe all hang")
+		}
+		if n == 0 {
+			c.ok("Connection.mu:not-reentered", "-", "no path locks Connection.mu while holding it")
+		}
+	}
+	// the callback maps change only by registration and by the removers: nothing else replaces, clears or
+	// deletes from them
+	{
+		n := 0
+		allowedFn := func(f *ssa.Function) bool {
+			for g := f; g != nil; g = g.Parent() {
+				switch g.Name() {
+				case "addSubscriber", "addSubscriberToAll", "NewConnection", "SubscribeEvent", "SubscribeToAll", "SubscribeMessages":
+					return true
+				}
+			}
+			return false
+		}
+		for _, fn := range P.Funcs {
+			if !inSSEPackage(fn) || allowedFn(fn) {
+				continue
+			}
+			eachInstr(fn, func(in ssa.Instruction) {
+				what := ""
+				switch x := in.(type) {
+				case *ssa.Store:
+					if o, nme, _, ok := fieldSel(x.Addr); ok && o == "Connection" && (nme == "callbacks" || nme == "callbacksAll") {
+						what = "replaces Connection." + nme
+					}
+				case *ssa.MapUpdate:
+					if guardedMapValue(x.Map) {
+						what = "writes an entry of the callback maps"
+					}
+				case ssa.CallInstruction:
+					if b, ok := x.Common().Value.(*ssa.Builtin); ok && len(x.Common().Args) > 0 && guardedMapValue(x.Common().Args[0]) {
+						if b.Name() == "clear" || b.Name() == "delete" {
+							what = b.Name() + "s from the callback maps"
+						}
+					}
+				}
+				if what != "" {
+					n++
+					c.bad(fnLabel(fn)+":callbacks-changed-elsewhere", P.ipos(in), fnLabel(fn)+" "+what+" outside registration and the removers: callbacks that are still subscribed stop receiving events (or are resurrected)")
+				}
+			})
+		}
+		if n == 0 {
+			c.ok("Connection.callbacks:writers", "-", "the callback maps are changed only by the registration functions and their removers")
+		}
 	}
 }
 
